@@ -5,7 +5,9 @@ import (
 	"math/big"
 	"os"
 	"path/filepath"
+	"runtime"
 	"strings"
+	"sync"
 	"time"
 
 	"github.com/markkurossi/mpc/circuit"
@@ -185,14 +187,50 @@ func runC02(cs *vrt.Case) {
 		}
 	}
 	nontriv := refc.Depends(c)
-	for _, p := range pairs {
-		kind := 2
-		if r.Intn(5) == 0 {
-			kind = 3
+	// Overlapping sessions: every third case runs its sessions in groups of
+	// 2-3 concurrent garbler/evaluator pairs on the one shared *Circuit (a
+	// server garbling the same function for several clients); half of these
+	// on a single P so that a pooled buffer released by one session is the one
+	// the next session's Garble picks up while the first is still using it.
+	outs := make([]*yaoOut, len(pairs))
+	kinds := make([]int, len(pairs))
+	overlap := cs.Idx%3 == 1 && len(pairs) >= 2 && otk != 3
+	if overlap {
+		cs.Count("cases_with_overlapping_sessions_on_one_circuit", 1)
+		oneP := r.Bool()
+		if oneP {
+			defer runtime.GOMAXPROCS(runtime.GOMAXPROCS(1))
+			cs.Count("cases_with_overlapping_sessions_single_P", 1)
 		}
-		o := runYao(r, c, p.x, p.y, yaoOpts{ot: otk, kind: kind, stallWin: 30 * time.Second})
+		for lo := 0; lo < len(pairs); {
+			hi := min(len(pairs), lo+r.Range(2, 3))
+			var wg sync.WaitGroup
+			for i := lo; i < hi; i++ {
+				kinds[i] = 2
+				rr := r.Fork()
+				wg.Add(1)
+				go func(i int) {
+					defer wg.Done()
+					outs[i] = runYao(rr, c, pairs[i].x, pairs[i].y, yaoOpts{ot: otk, kind: 2, stallWin: 30 * time.Second})
+				}(i)
+			}
+			wg.Wait()
+			cs.Count("overlapping_session_groups", 1)
+			lo = hi
+		}
+	}
+	for pi, p := range pairs {
+		kind := kinds[pi]
+		o := outs[pi]
+		if o == nil {
+			kind = 2
+			if r.Intn(5) == 0 {
+				kind = 3
+			}
+			o = runYao(r, c, p.x, p.y, yaoOpts{ot: otk, kind: kind, stallWin: 30 * time.Second})
+		}
 		cs.Evals++
-		desc := map[string]any{"circuit": what, "inputs": c.Inputs.String(), "outputs": c.Outputs.String(), "ot": o.otName, "x": p.x.Text(16), "y": p.y.Text(16), "transport": kind}
+		desc := map[string]any{"overlapping": overlap, "circuit": what, "inputs": c.Inputs.String(), "outputs": c.Outputs.String(), "ot": o.otName, "x": p.x.Text(16), "y": p.y.Text(16), "transport": kind}
 		cs.SetSample(desc)
 		cs.Seen("ot", o.otName)
 		if pi := firstPanic(o.g, o.e); pi != nil {
